@@ -10,39 +10,39 @@ open HTree
 
 namespace Forest
 
-structure Frame (f f' : Forest) (S : List Nat) : Prop where
-  parent : ∀ x, x ∉ S → f'.parent? x = f.parent? x
-  value : ∀ x, x ∉ S → f'.value? x = f.value? x
+structure Frame (f f' : Forest) (P V : List Nat) : Prop where
+  parent : ∀ x, x ∉ P → f'.parent? x = f.parent? x
+  live : ∀ x, x ∉ P → f'.isLive x = f.isLive x
+  value : ∀ x, x ∉ V → f'.value? x = f.value? x
   corrupt : f'.corrupt = f.corrupt
   consolidation : f'.consolidation = f.consolidation
 
-theorem Frame.refl (f : Forest) (S : List Nat) : Frame f f S :=
-  ⟨fun _ _ => rfl, fun _ _ => rfl, rfl, rfl⟩
+theorem Frame.refl (f : Forest) (P V : List Nat) : Frame f f P V :=
+  ⟨fun _ _ => rfl, fun _ _ => rfl, fun _ _ => rfl, rfl, rfl⟩
 
-theorem Frame.trans {f f' f'' : Forest} {S S' : List Nat} (a : Frame f f' S) (b : Frame f' f'' S') :
-    Frame f f'' (S ++ S') :=
+theorem Frame.trans {f f' f'' : Forest} {P V P' V' : List Nat} (a : Frame f f' P V)
+    (b : Frame f' f'' P' V') : Frame f f'' (P ++ P') (V ++ V') :=
   ⟨fun x hx => by
       rw [List.mem_append, not_or] at hx
       rw [b.parent x hx.2, a.parent x hx.1],
    fun x hx => by
       rw [List.mem_append, not_or] at hx
+      rw [b.live x hx.2, a.live x hx.1],
+   fun x hx => by
+      rw [List.mem_append, not_or] at hx
       rw [b.value x hx.2, a.value x hx.1],
    by rw [b.corrupt, a.corrupt], by rw [b.consolidation, a.consolidation]⟩
 
-theorem Frame.mono {f f' : Forest} {S S' : List Nat} (a : Frame f f' S) (h : ∀ x ∈ S, x ∈ S') :
-    Frame f f' S' :=
-  ⟨fun x hx => a.parent x (fun h' => hx (h x h')), fun x hx => a.value x (fun h' => hx (h x h')),
-   a.corrupt, a.consolidation⟩
+theorem Frame.mono {f f' : Forest} {P V P' V' : List Nat} (a : Frame f f' P V)
+    (hP : ∀ x ∈ P, x ∈ P') (hV : ∀ x ∈ V, x ∈ V') : Frame f f' P' V' :=
+  ⟨fun x hx => a.parent x (fun h' => hx (hP x h')), fun x hx => a.live x (fun h' => hx (hP x h')),
+   fun x hx => a.value x (fun h' => hx (hV x h')), a.corrupt, a.consolidation⟩
 
-theorem Frame.isLive {f f' : Forest} {S : List Nat} (a : Frame f f' S) {x : Nat} (hx : x ∉ S) :
-    f'.isLive x = f.isLive x := by
-  rw [isLive_iff_value?, isLive_iff_value?, a.value x hx]
-
-theorem Frame.isRoot {f f' : Forest} {S : List Nat} (a : Frame f f' S) (w : f.W) (w' : f'.W)
-    {x : Nat} (hx : x ∉ S) : f'.isRoot x = f.isRoot x := by
+theorem Frame.isRoot {f f' : Forest} {P V : List Nat} (a : Frame f f' P V) (w : f.W) (w' : f'.W)
+    {x : Nat} (hx : x ∉ P) : f'.isRoot x = f.isRoot x := by
   have h1 := isRoot_iff w x
   have h2 := isRoot_iff w' x
-  rw [a.isLive hx, a.parent x hx] at h2
+  rw [a.live x hx, a.parent x hx] at h2
   cases h : f.isRoot x with
   | true => exact h2.2 (h1.1 h)
   | false =>
@@ -50,23 +50,23 @@ theorem Frame.isRoot {f f' : Forest} {S : List Nat} (a : Frame f f' S) (w : f.W)
     | false => rfl
     | true => rw [h1.2 (h2.1 h')] at h; cases h
 
-theorem Frame.textOf {f f' : Forest} {S : List Nat} (a : Frame f f' S) {x : Nat} (hx : x ∉ S) :
+theorem Frame.textOf {f f' : Forest} {P V : List Nat} (a : Frame f f' P V) {x : Nat} (hx : x ∉ V) :
     f'.textOf x = f.textOf x := by
   unfold Forest.textOf; rw [a.value x hx]
 
 /-- The ancestor chain of a node is kept when the whole chain lies outside `S`. -/
-theorem Frame.ancestors {f f' : Forest} {S : List Nat} (a : Frame f f' S) (w : f.W) (w' : f'.W) :
-    ∀ (l : List Nat) (x : Nat), f.ancestors x = l → f.isLive x = true → (∀ y ∈ l, y ∉ S) →
+theorem Frame.ancestors {f f' : Forest} {P V : List Nat} (a : Frame f f' P V) (w : f.W) (w' : f'.W) :
+    ∀ (l : List Nat) (x : Nat), f.ancestors x = l → f.isLive x = true → (∀ y ∈ l, y ∉ P) →
       f'.ancestors x = l
   | [], x, e, hl, _ => by
     have := self_mem_ancestors w hl
     rw [e] at this; cases this
   | y :: l, x, e, hl, hS => by
-    have hxS : x ∉ S := by
+    have hxS : x ∉ P := by
       apply hS
       have := self_mem_ancestors w hl
       rwa [e] at this
-    have hl' : f'.isLive x = true := by rw [a.isLive hxS]; exact hl
+    have hl' : f'.isLive x = true := by rw [a.live x hxS]; exact hl
     cases hp : f.parent? x with
     | none =>
       have hp' : f'.parent? x = none := by rw [a.parent x hxS]; exact hp
@@ -79,13 +79,13 @@ theorem Frame.ancestors {f f' : Forest} {S : List Nat} (a : Frame f f' S) (w : f
       have hq : f.ancestors q = l := by injection e
       rw [Frame.ancestors a w w' l q hq (parent?_live hp).2 (fun z hz => hS z (List.mem_cons_of_mem _ hz)), hy]
 
-theorem Frame.ancestors' {f f' : Forest} {S : List Nat} (a : Frame f f' S) (w : f.W) (w' : f'.W)
-    {x : Nat} (hl : f.isLive x = true) (hS : ∀ y ∈ f.ancestors x, y ∉ S) :
+theorem Frame.ancestors' {f f' : Forest} {P V : List Nat} (a : Frame f f' P V) (w : f.W) (w' : f'.W)
+    {x : Nat} (hl : f.isLive x = true) (hS : ∀ y ∈ f.ancestors x, y ∉ P) :
     f'.ancestors x = f.ancestors x :=
   Frame.ancestors a w w' _ x rfl hl hS
 
-theorem setValue_frame (f : Forest) (h : Nat) (v : Value) : Frame f (f.setValue h v) [h] :=
-  ⟨fun x _ => setValue_parent? f h v x,
+theorem setValue_frame (f : Forest) (h : Nat) (v : Value) : Frame f (f.setValue h v) [] [h] :=
+  ⟨fun x _ => setValue_parent? f h v x, fun x _ => setValue_isLive f h v x,
    fun x hx => by
      rw [setValue_value?]
      have : x ≠ h := by simpa using hx
